@@ -15,6 +15,8 @@ def decode(fdp):
         return None
     if getattr(t, 'segwit_flag', False) and not t.has_witness():
         return None
+    if any(o.value < 0 for o in t.vout):
+        return None      # negative amounts: the library reads the field unsigned, consensus rejects the transaction
     return {'kind': 'tx', 'strict': False, 'tx': txgen.case_from_tx(t)}
 
 
